@@ -1650,3 +1650,11 @@ package larking
 //@   count ends `sh.HandleRPC(ctx, &stats.End{`
 //@   ensures [an-early-end-is-one-end-event C18] at every return ends <= 1
 //@   assert atcall `sh.HandleRPC(ctx, &stats.End{` [an-early-end-carries-the-error-handed-in C18] ptr(pay(arg1), "stats.End").Error == err
+// gzipWriter.Close finishes the gzip stream and hands the writer back, once each (C13, C04).
+//@ func (*gzipWriter).Close serves C13 C04 partial ghost count post
+//@   requires z != nil
+//@   count dputs `defer z.pool.Put(`
+//@   count puts `z.pool.Put(`
+//@   count finishes `z.Writer.Close(`
+//@   ensures [a-closed-writer-is-finished-and-handed-back-once C13 C04] at every return dputs + puts == 1 && finishes == 1
+//@   assert atcall `z.Writer.Close(` [the-stream-is-finished-before-the-writer-can-be-reused C13] puts == 0
